@@ -1,7 +1,7 @@
 /-
   Property C08 — everything the library emits is the wire format the
   specification defines.  Statements only; proofs in Saltpack/Proofs/SpecEq.lean,
-  MsgpackRT.lean, ChunkPlan.lean.
+  MsgpackRT.lean, MsgpackMin.lean, ChunkPlan.lean.
 
   The chain: (1) `Seal`, `Sign`, `SignDetached`, `SigncryptSeal` and their
   streaming / armored forms are byte-identical to the code model's encoders
@@ -18,6 +18,7 @@
 -/
 import Saltpack.Proofs.SpecEq
 import Saltpack.Proofs.MsgpackRT
+import Saltpack.Proofs.MsgpackMin
 
 namespace Saltpack.Props.C08
 open Saltpack Saltpack.Spec Saltpack.Proofs
@@ -85,9 +86,14 @@ theorem C08_chunks (v : Version) (pt : Bytes) :
     ((Encrypt.chunkPlan v blockSize pt).map (·.1)).flatten = pt :=
   go_plan_legal v pt
 
-/-- **Minimal MessagePack**: what is written parses back to exactly the value
-    written — the encoder is the canonical (shortest-form) one, byte strings are
-    `bin` (the only nil ever written is the key id of a hidden recipient) -/
+/-- **MessagePack round trip** (the name is historical): what is written parses
+    back to exactly the value written, also when more bytes follow.  This is a
+    round-trip statement ONLY: the parser is lenient (it accepts every
+    MessagePack form, also non-minimal ones), so this theorem does not by itself
+    say that the encoder picks the shortest form, nor anything about nil.
+    Minimality is `C08_encode_is_shortest` (+ `C08_encode_is_shortest_prefix`,
+    `C08_shortest_is_unique`); "byte strings are `bin`, the only nil ever written
+    is the key id of a hidden recipient" is the family `C08_no_nil_bins_*`. -/
 theorem C08_minimal_msgpack (v : Msgpack.Val) (hv : ValWF v) (rest : Bytes) :
     Msgpack.parse1 (Msgpack.encode v ++ rest) = .ok (v, rest) :=
   parse1_encode v hv rest
@@ -100,5 +106,159 @@ theorem C08_header_is_wf (h : EncHeader)
     (h7 : -(2 ^ 63 : Int) ≤ h.version.minor ∧ h.version.minor < 2 ^ 64)
     (h8 : -(2 ^ 63 : Int) ≤ h.typ ∧ h.typ < 2 ^ 64) : ValWF h.toVal :=
   encHeader_wf h h1 h2 h3 h4 h5 h6 h7 h8
+
+/-! ### minimal MessagePack encodings
+
+  `Msgpack.parse1` accepts ALL MessagePack forms of a value (a 1-byte string may
+  arrive as fixstr, str8, str16 or str32; 5 as a fixint or as `cc 05`, `cd 00 05`,
+  `d0 05`, …).  `Msgpack.encode` — the encoder the sender models use for every
+  packet — always produces a shortest one. -/
+
+/-- **Minimal encodings**: among all byte strings that the (lenient) parser
+    reads as the value `v`, the encoding the library emits is a shortest one. -/
+theorem C08_encode_is_shortest :
+    ∀ (b : Bytes) (v : Msgpack.Val), Msgpack.parse1 b = .ok (v, []) → ValWF v →
+      (Msgpack.encode v).length ≤ b.length :=
+  fun b v h hv => MsgpackMin.encode_is_shortest b v h hv
+
+/-- the same inside a stream of objects: whatever prefix of `b` the parser
+    consumes for `v`, it is at least as long as `encode v` -/
+theorem C08_encode_is_shortest_prefix (b : Bytes) (v : Msgpack.Val) (rest : Bytes)
+    (h : Msgpack.parse1 b = .ok (v, rest)) (hv : ValWF v) :
+    (Msgpack.encode v).length + rest.length ≤ b.length :=
+  MsgpackMin.parse_shortest _ b v rest h hv
+
+/-- non-vacuity: a non-minimal form (str8 of "a", 3 bytes) is accepted by the
+    parser as the same value that the encoder writes in 2 bytes (fixstr) -/
+example : Msgpack.parse1 [0xd9, 0x01, 0x61] = .ok (.str [0x61], []) ∧
+    Msgpack.encode (.str [0x61]) = [0xa1, 0x61] ∧ ValWF (.str [0x61]) :=
+  ⟨by rfl, by rfl, ValWF.str _ (by simp)⟩
+
+set_option maxRecDepth 4096 in
+/-- non-minimal integer and bin forms are accepted too, the encoder writes the short ones -/
+example : Msgpack.parse1 [0xcd, 0x00, 0x05] = .ok (.int 5, []) ∧ Msgpack.encode (.int 5) = [0x05] ∧
+    Msgpack.parse1 [0xc5, 0x00, 0x01, 0x07] = .ok (.bin [0x07], []) ∧
+    Msgpack.encode (.bin [0x07]) = [0xc4, 0x01, 0x07] :=
+  ⟨by rfl, by rfl, by rfl, by rfl⟩
+
+/-- **The shortest accepted encoding is unique** (= the canonical one), for
+    trees whose integers are all below 256 (`smallInts`; negative integers are
+    unrestricted).  All integers saltpack writes are version numbers and the
+    message type (`C08_packets_have_small_ints`).
+    The restriction is needed — see `C08_shortest_not_unique_for_wide_ints`. -/
+theorem C08_shortest_is_unique (b : Bytes) (v : Msgpack.Val)
+    (h : Msgpack.parse1 b = .ok (v, [])) (hv : ValWF v) (hsm : smallInts v = true)
+    (hlen : b.length = (Msgpack.encode v).length) : b = Msgpack.encode v :=
+  MsgpackMin.shortest_is_unique b v h hv hsm hlen
+
+/-- without the restriction uniqueness is FALSE in MessagePack itself: a
+    non-negative integer from 256 up has a signed form of the same length as the
+    unsigned form the encoder (like go-codec) picks. -/
+theorem C08_shortest_not_unique_for_wide_ints :
+    Msgpack.parse1 [0xd1, 0x01, 0x00] = .ok (.int 256, []) ∧
+    Msgpack.encode (.int 256) = [0xcd, 0x01, 0x00] ∧ ValWF (.int 256) :=
+  MsgpackMin.shortest_not_unique_wide_int
+
+theorem C08_packets_have_small_ints :
+    (∀ h : EncHeader, h.version.major < 256 → h.version.minor < 256 → h.typ < 256 →
+      smallInts h.toVal = true) ∧
+    (∀ h : SigHeader, h.version.major < 256 → h.version.minor < 256 → h.typ < 256 →
+      smallInts h.toVal = true) :=
+  ⟨MsgpackMin.smallInts_encHeader, MsgpackMin.smallInts_sigHeader⟩
+
+/-! ### byte strings are `bin`; the only nil is the key id of a hidden recipient
+
+  Stated on the trees (`toVal`) that the sender models hand to `encode`:
+  `nilFree t` = there is no `nil` anywhere in `t`.  Every byte-string field is a
+  `.bin` node by construction of `toVal`; the only `toVal` that can produce
+  `.nil` is `optBin none` — the key id of a receiver pair — and `encBlockVal` for
+  an EMPTY authenticator list (Go's nil slice), which the receiver check rules
+  out (`C08_no_nil_bins_enc_payload_sealed`). -/
+
+/-- signature headers (attached and detached): never a nil -/
+theorem C08_no_nil_bins_sig_header (h : SigHeader) : nilFree h.toVal = true :=
+  MsgpackMin.nilFree_sigHeader h
+
+/-- encryption / signcryption headers: the five leading fields are never nil;
+    each receiver is the pair `[key id or nil, box]`, with nil exactly for
+    `kid = none` -/
+theorem C08_no_nil_bins_enc_header_shape (h : EncHeader) :
+    ∃ f0 f1 f2 f3 f4,
+      h.toVal = .arr [f0, f1, f2, f3, f4, .arr (h.receivers.map RecvKeys.toVal)] ∧
+      nilFree f0 = true ∧ nilFree f1 = true ∧ nilFree f2 = true ∧ nilFree f3 = true ∧
+      nilFree f4 = true ∧
+      ∀ r ∈ h.receivers, r.toVal = .arr [optBin r.kid, .bin r.box] ∧
+        (optBin r.kid = .nil ↔ r.kid = none) :=
+  MsgpackMin.encHeader_shape h
+
+/-- … hence the header tree is nil-free iff no receiver has a nil key id -/
+theorem C08_no_nil_bins_enc_header_iff (h : EncHeader) :
+    nilFree h.toVal = true ↔ ∀ r ∈ h.receivers, r.kid ≠ none :=
+  MsgpackMin.nilFree_encHeader_iff h
+
+/-- encryption V1/V2, the header the sender model builds: the key id at position
+    `j` is nil exactly when the `j`-th recipient is a hidden one -/
+theorem C08_no_nil_bins_enc_header_sender (P : Prims) (v : Version) (sender : Option Bytes)
+    (eph pk : Bytes) (rs : List Encrypt.Recipient) (h : EncHeader) :
+    Encrypt.header P v sender eph pk rs = .ok h → (v = v1 ∨ v = v2) →
+    ∀ (j : Nat) (r : RecvKeys), h.receivers[j]? = some r →
+      (r.kid = none ↔ (rs.getD j default).hidden = true) :=
+  MsgpackMin.enc_header_kid_nil_iff P v sender eph pk rs h
+
+/-- … so it contains a nil iff some recipient is hidden -/
+theorem C08_no_nil_bins_enc_header_sender_iff (P : Prims) (v : Version) (sender : Option Bytes)
+    (eph pk : Bytes) (rs : List Encrypt.Recipient) (h : EncHeader)
+    (hh : Encrypt.header P v sender eph pk rs = .ok h) (hv : v = v1 ∨ v = v2) :
+    nilFree h.toVal = true ↔ ∀ r ∈ rs, r.hidden = false :=
+  MsgpackMin.enc_header_nilFree_iff P v sender eph pk rs h hh hv
+
+/-- signcryption: every receiver carries an identifier, the header has no nil -/
+theorem C08_no_nil_bins_signcrypt_header (P : Prims) (sender : Option Bytes) (eph pk : Bytes)
+    (rs : List Signcrypt.Recipient) :
+    (∀ r ∈ (Signcrypt.header P sender eph pk rs).receivers, r.kid ≠ none) ∧
+    nilFree (Signcrypt.header P sender eph pk rs).toVal = true :=
+  ⟨MsgpackMin.sc_header_kid_ne_none P sender eph pk rs, MsgpackMin.sc_header_nilFree P sender eph pk rs⟩
+
+/-- encryption payload packets: nil-free as soon as there is an authenticator.
+    (`encBlockVal` writes nil for an EMPTY authenticator list — second clause —
+    which cannot happen after `checkReceivers`: next theorem.) -/
+theorem C08_no_nil_bins_enc_payload (v : Version) (auths : List Bytes) (ct : Bytes) (f : Bool)
+    (val : Msgpack.Val) :
+    (encBlockVal v auths ct f = .ok val → auths ≠ [] → nilFree val = true) ∧
+    (encBlockVal v2 [] ct f = .ok (.arr [.bool f, .nil, .bin ct]) ∧
+      nilFree (.arr [.bool f, .nil, .bin ct]) = false) :=
+  ⟨MsgpackMin.encBlockVal_nilFree v auths ct f val, MsgpackMin.encBlockVal_empty_has_nil ct f⟩
+
+/-- packets built by `Encrypt.blockStructs` from a non-empty MAC-key list have a
+    non-empty authenticator list -/
+theorem C08_no_nil_bins_enc_blocks (P : Prims) (v : Version) (pk hh : Bytes) (mks : List Bytes)
+    (hm : mks ≠ []) (plan : List (Bytes × Bool)) (k : Nat) (blks : List EncBlock)
+    (h : Encrypt.blockStructs P v pk hh mks plan k = .ok blks) :
+    ∀ b ∈ blks, b.auths ≠ [] :=
+  MsgpackMin.enc_blockStructs_auths_ne_nil P v pk hh mks hm plan k blks h
+
+/-- every payload packet of a sealed encryption message is nil-free -/
+theorem C08_no_nil_bins_enc_payload_sealed (P : Prims) (bs : Nat) (v : Version)
+    (sender : Option Bytes) (rs : List Encrypt.Recipient) (eph pk pt : Bytes)
+    (h : EncHeader) (hb : Bytes) (blks : List EncBlock)
+    (hseal : Encrypt.sealPackets P bs v sender rs eph pk pt = .ok (h, hb, blks)) :
+    ∀ b ∈ blks, b.auths ≠ [] ∧
+      ∀ val, encBlockVal v b.auths b.ct b.final = .ok val → nilFree val = true :=
+  MsgpackMin.enc_sealPackets_nilFree P bs v sender rs eph pk pt h hb blks hseal
+
+theorem C08_no_nil_bins_signcrypt_payload (ct : Bytes) (f : Bool) :
+    nilFree (signcryptBlockVal ct f) = true :=
+  MsgpackMin.signcryptBlockVal_nilFree ct f
+
+theorem C08_no_nil_bins_sig_payload (v : Version) (sig chunk : Bytes) (f : Bool) (val : Msgpack.Val)
+    (h : sigBlockVal v sig chunk f = .ok val) : nilFree val = true :=
+  MsgpackMin.sigBlockVal_nilFree v sig chunk f val h
+
+/-- non-vacuity: a header with one hidden recipient does contain a nil, one with
+    a named recipient does not -/
+example :
+    nilFree (EncHeader.toVal ⟨[0x73], v2, 0, [1], [2], [⟨none, [3]⟩]⟩) = false ∧
+    nilFree (EncHeader.toVal ⟨[0x73], v2, 0, [1], [2], [⟨some [9], [3]⟩]⟩) = true :=
+  ⟨by decide, by decide⟩
 
 end Saltpack.Props.C08
